@@ -242,4 +242,54 @@ META = {
                 "theorem (C01 assumes windows >= 1); that case is covered by the oracle on trained models.",
         "technique": "Lean 4 proof (fold invariant over sorted association lists; exchange of sums between stored vectors and extracted features) + hook-based differential correspondence",
     },
+    "C11": {
+        "text": "Lean theorems carry the bookkeeping around the learner: assembling the boundary model never panics on features the "
+                "trainer itself extracts (C09_assemble_total) and assembling a tag model never panics when the recorded classes lie "
+                "inside its trainable classes (C11_tag_assemble_total); the assembled boundary model is well-formed whenever both "
+                "windows are >= 1 (C11_assembled_wf) and the assembled tag models are well-formed (C11_tags_wf, C11_tags_weights_ne); "
+                "every well-formed model is accepted by the predictor with and without tag prediction in every build configuration "
+                "(C11_predictor_accepts) and then predicts and tags ANY non-empty text without panicking, with or without score "
+                "storing (C11_predict_total, from C01_scores and C06). liblinear itself (error returns, label order, NaN), the f64 "
+                "quantisation and window size 0 are the runtime remainder, covered by the sweep: all 8 solvers x window/n-gram sizes "
+                "0..4 x six corpus kinds (empty, single class, untagged, partially tagged, partially annotated, ambiguous tags), each "
+                "followed by write -> read -> Predictor::new(., true/false) -> predict + fill_tags and an i16-range check of every weight.",
+        "design_ref": "DESIGN.md §6 C11",
+        "note": _common_note + "PARTIAL by nature: 'training never panics' for the learner call itself is established by the sweep (exploration), not by a "
+                "theorem; the theorems cover everything before and after the learner.",
+        "technique": "Lean 4 proof (totality and well-formedness of the assembly; usability of every well-formed model) + solver/configuration sweep on the real trainer",
+    },
+    "C18": {
+        "text": "In the model every get_unchecked*/unwrap_unchecked/unchecked range is a CHECKED access yielding ub, so the property is "
+                "'no run produces ub'. C18_history_safe: for predictors built through Predictor::new from well-formed models (every "
+                "build configuration), EVERY valid history of public-API calls on one sentence object — updates incl. rejected input, "
+                "predict with any predictor, fill_tags, reset_tags, boundary/tag writes, all four filters (grapheme filter for every "
+                "valid segmentation) — runs to completion: no unchecked index out of range, no panic, and the sentence stays "
+                "consistent (induction over histories with an invariant that remembers which prediction the automaton states belong to). "
+                "Byte-level preconditions the character-level model abstracts are separate theorems on the model's UTF-8 encoder: every "
+                "byte offset at which a pattern's bytes end inside the text's bytes is a character boundary and the pattern occurs "
+                "there as characters (C18_match_end_boundary, C18_char_match_is_byte_match — UTF-8 self-synchronisation), and the "
+                "buffer write_tokenized_text assembles from raw bytes equals the UTF-8 of the escaped characters, hence is valid "
+                "(C18_escape_bytes, C18_escape_valid_utf8). Tied to /repo by running the union of the C08/C06/C14/C15 cases in a build "
+                "with debug assertions and overflow checks (every debug_assert! guarding an unchecked access fires as a panic).",
+        "design_ref": "DESIGN.md §6 C18",
+        "note": _common_note + "PARTIAL: memory safety inside daachorse/hashbrown and of deserialize_unchecked (beyond the value-level round trip of C14) is "
+                "outside the model; Miri/ASan runs were not built.",
+        "technique": "Lean 4 proof (history invariant by induction; UTF-8 self-synchronisation) + debug-assertion differential run",
+    },
+    "C20": {
+        "text": "Lean theorems on the mirrored main loop of predict (reused sentence objects s and s_orig kept): whatever state the loop "
+                "is in, the bytes written for a line are exactly the specification block of that line — the library pipeline on a FRESH "
+                "sentence, tokenised line from the ORIGINAL characters, newline, optional score block, optional tag-score block, an "
+                "empty line for an empty or rejected input (C20_line_eq_library); the whole output is the concatenation of one block "
+                "per input line in both modes (C20_output_eq_blocks); parsing the tokenised line gives back the un-normalised input "
+                "line (C20_surfaces_concat, via C03_roundtrip); and once the predictor is built no input stream and no flag combination "
+                "makes the tool panic (C20_no_crash, all four flags incl. tag scores). evaluate is modelled up to its integer counts. "
+                "Tied to /repo by running the REAL predict and evaluate binaries (built from the working tree) on generated streams x "
+                "all 16 / 8 flag combinations x wsconst sets, comparing stdout and exit status with the model and with a per-line "
+                "library pipeline in the harness; evaluate's P/R/F1 are compared as text against the same f64 expressions.",
+        "design_ref": "DESIGN.md §6 C20",
+        "note": _common_note + "PARTIAL: clap, process exit codes, tty flushing and the floats of evaluate are not modelled; C20_no_crash covers "
+                "character-type --wsconst values (the G filter needs cluster data; it is covered by the runs).",
+        "technique": "Lean 4 proof (refinement of the reused-object loop to a per-line specification) + differential runs of the real binaries",
+    },
 }
